@@ -43,8 +43,15 @@ type Task struct {
 }
 
 func (t *Task) ParkedAt() string { return t.parkedAt }
-func (t *Task) Done() bool       { return t.state == tDone }
-func (t *Task) Parked() bool     { return t.state == tParked }
+
+// Blocked: the task was judged to wait for something another task has to do.
+func (s *Sched) Blocked(t *Task) bool {
+	s.mu.Lock()
+	defer s.mu.Unlock()
+	return t.state == tBlocked
+}
+func (t *Task) Done() bool   { return t.state == tDone }
+func (t *Task) Parked() bool { return t.state == tParked }
 
 type schedEvent struct {
 	task *Task
